@@ -895,6 +895,7 @@ class Interp:
 
     def call_func(self, f: Func, args, kwargs, node, self_obj=None):
         if self.depth >= self.max_depth or not self.should_inline(f):
+            self.root.last_receiver = self_obj
             return self.external_call(f.qual, args, kwargs, node)
         params = f.params
         env = {}
